@@ -52,8 +52,57 @@ def mk(sp, ni):
     return d
 
 
+_added = []
+
+
+def _patch_control():
+    """record every rule string handed to clingo by the trap-space encoder"""
+    import biobalm.trappist_core as tc
+
+    if getattr(tc.Control, "_balm_rec", False):
+        return
+    Orig = tc.Control
+
+    class Rec(Orig):
+        _balm_rec = True
+
+        def add(self, *a, **k):
+            _added.append(a[-1] if a else k.get("program"))
+            return super().add(*a, **k)
+
+    tc.Control = Rec
+
+
+def canon_rule(rule, ni):
+    """canonical form of an emitted rule: places as p<i>/n<i>, atoms sorted"""
+    import re
+
+    def place(m):
+        return ("p" if m.group(1) == "1" else "n") + str(ni.idx[m.group(2)])
+
+    r = re.sub(r"b([01])_([A-Za-z0-9_]+)", place, rule.strip())
+    assert r.endswith("."), rule
+    r = r[:-1]
+    if r == "#false" or r.strip() == ":-":
+        return "#false."        # an empty integrity constraint is the same rule
+    if r.startswith("{"):
+        return r + "."
+    if r.startswith(":-"):
+        # in a rule body `;` and `,` both mean conjunction
+        return ":- " + ", ".join(sorted(x.strip() for x in re.split(r"[;,]", r[2:]))) + "."
+    if ":-" in r:
+        h, b = r.split(":-")
+        return "; ".join(sorted(x.strip() for x in h.split(";"))) + " :- " + b.strip() + "."
+    if ";" in r:
+        return "; ".join(sorted(x.strip() for x in r.split(";"))) + "."
+    return r + "."
+
+
 def run_case(case):
     from biobalm.trappist_core import trappist, compute_fixed_point_reduced_STG
+    from props.C10 import pn_transitions
+
+    _patch_control()
 
     sd = make_sd(case)
     ni = common.NetInfo(sd.network)
@@ -81,8 +130,10 @@ def run_case(case):
             srcs_model = list(inputs[:1])
         else:
             srcs_model = inputs
+        del _added[:]
         got = trappist(pn, problem=q["problem"], reverse_time=q["rev"], ensure_subspace=ens, avoid_subspaces=avoid,
                        solution_limit=q["limit"], **kw)
+        emitted = sorted(canon_rule(r, ni) for r in _added)
         sl = ",".join(str(ni.idx[v]) for v in srcs_model) or "-"
         if q["problem"] != "max":
             sl = "-"
@@ -91,14 +142,36 @@ def run_case(case):
             pass
         lines.append(f"SOLVE {q['problem']} {1 if q['rev'] else 0} {ni.sp(ens)} {sl} " + " ".join(ni.sp(a) for a in avoid))
         obs.append(("trappist", q, [ni.sp(x) for x in got], q["limit"]))
+        if not q["rev"]:
+            ts, err = pn_transitions(pn, ni)
+            if not err:
+                lines.append(f"ASP {q['problem']} {ni.sp(ens)} {sl} " + " ".join(ni.sp(a) for a in avoid) + " || " + " ".join(ts))
+                obs.append(("program", q, emitted, None))
     for q in case["reduced"]:
         ret, ens, avoid = mk(q["ret"], ni), mk(q["ens"], ni), [mk(a, ni) for a in q["avoid"]]
+        del _added[:]
         got = compute_fixed_point_reduced_STG(pn, ret, ensure_subspace=ens, avoid_subspaces=avoid, solution_limit=q["limit"])
+        emitted = sorted(canon_rule(r, ni) for r in _added)
         lines.append(f"REDFP {ni.sp(ret)} {ni.sp(ens)} " + " ".join(ni.sp(a) for a in avoid))
         obs.append(("reduced", q, [ni.sp(x) for x in got], q["limit"]))
+        ts, err = pn_transitions(pn, ni)
+        if not err:
+            lines.append(f"FPASP {ni.sp(ret)} {ni.sp(ens)} " + " ".join(ni.sp(a) for a in avoid) + " || " + " ".join(ts))
+            obs.append(("program", q, emitted, None))
     rep = common.run_driver(lines)
     fails, nontriv = [], False
+    diffs = []
+    ncmp = [0]
     for (kind, q, got, limit), want in zip(obs, rep[1:]):
+        if kind == "program":
+            ncmp[0] += 1
+            model = sorted(want.split(" | ")) if want else []
+            if got != model:
+                only_real = [r for r in got if r not in model][:4]
+                only_model = [r for r in model if r not in got][:4]
+                diffs.append({"stream": "ASP program text vs Impl.trapProgram", "query": q, "only_emitted": only_real, "only_model": only_model,
+                              "emitted": got[:30] if not only_real and not only_model else None, "model": model[:30] if not only_real and not only_model else None})
+            continue
         want = want.split()
         if len(set(got)) != len(got):
             fails.append({"kind": "duplicate-solution", "sig": {"solver": kind}, "detail": f"{q}: {got}"})
@@ -113,4 +186,5 @@ def run_case(case):
                               f"{q}: limit {limit}: got {got[:8]} of {len(want)} solutions {want[:8]}"})
         if len(want) >= 2 or q.get("avoid") or q.get("ens"):
             nontriv = True
-    return {"fails": fails, "diffs": [], "tags": [], "nontrivial": nontriv, "sig": common.case_hash(case)}
+    return {"fails": fails, "diffs": diffs, "tags": ["asp-program-compared"] if ncmp[0] else [], "metrics": {"asp_programs_compared_per_case": ncmp[0]},
+            "nontrivial": nontriv, "sig": common.case_hash(case)}
